@@ -204,7 +204,7 @@ func (h *half) flip(i, bit int) {
 }
 
 // cut delivers n bytes and then closes the direction (peer vanished mid-message).
-func (h *half) cut(n int) {
+func (h *half) cut(n int, hard bool) {
 	h.mu.Lock()
 	if n > len(h.pending) {
 		n = len(h.pending)
@@ -212,7 +212,13 @@ func (h *half) cut(n int) {
 	h.inbox = append(h.inbox, h.pending[:n]...)
 	h.deliv += int64(n)
 	h.pending = nil
-	h.wclosed = true
+	if hard {
+		// the connection is reset rather than closed: what was delivered can
+		// still be read, then reads fail with an error that is not EOF
+		h.reset = true
+	} else {
+		h.wclosed = true
+	}
 	h.mu.Unlock()
 	h.wake()
 }
